@@ -388,7 +388,9 @@ func checkDocumentPartsBuilt(c *Ctx, p *core.Prog) {
 				if _, isPtr := st.Val.Type().Underlying().(*types.Pointer); !isPtr {
 					continue
 				}
-				if _, isCall := st.Val.(*ssa.Call); isCall {
+				switch st.Val.(type) {
+				case *ssa.Call, *ssa.Alloc:
+					// a freshly built object: a constructor call or a composite literal
 					stores = append(stores, st)
 				}
 			}
